@@ -4,7 +4,10 @@ from harness import common, tstate
 from harness.common import Result
 
 RELAYS = ['$' + ('%X' % (i + 10)) * 40 + '~relay%d' % i for i in range(5)] + ['$' + 'F' * 40 + '=named', '$' + '1' * 40]
-HOSTS = ['example.com:80', 'torproject.org:443', '10.0.0.1:22', 'foo.onion:80', 'relay1.exit:80', 'meejah.ca:443']
+HOSTS = ['example.com:80', 'torproject.org:443', '10.0.0.1:22', 'foo.onion:80', 'relay1.exit:80', 'meejah.ca:443', '10.0.0.2:80']
+# ADDRMAP lines: names (some of them addresses themselves, one ending in .exit) and the addresses they are mapped to
+AM_NAMES = ['example.com', 'meejah.ca', 'svc.exit', 'foo.onion', '10.0.0.1', 'torproject.org']
+AM_ADDRS = ['10.0.0.1', '10.0.0.2', '93.184.216.34', '<error>', 'example.com']
 C_IDS = [1, 2, 3, 5, 8, 13]
 S_IDS = [1, 2, 3, 4, 6, 7, 9, 11]
 ANSWERS = ['n', 'd', 'x', 'z0', 'z1', 'z2', 'z3', 'r', 'later']
@@ -178,6 +181,8 @@ def gen_case(rng, *, n_ops, listeners=True, waits=True, attach=False, weird=Fals
         if line.split()[1] in ('CLOSED', 'FAILED'):
             del live_s[sid]
         return oid, new
+    if rng.random() < 0.3:
+        case['snap_a'] = [[rng.choice(AM_NAMES), rng.choice(AM_ADDRS)] for _ in range(rng.randint(1, 3))]
     if via or rng.random() < 0.5:
         for cid in rng.sample(C_IDS, 2 if via else 1):
             w.circs[cid] = {'status': 'BUILT', 'path': w.path(3)}
@@ -289,6 +294,11 @@ def gen_case(rng, *, n_ops, listeners=True, waits=True, attach=False, weird=Fals
                     see_strm(l)
                     ops.append(['strm', l, [], None])
                     continue
+        if rng.random() < 0.07:
+            # Tor gives an address a name (or takes it away, or moves the name to another address): later streams to that
+            # address are listed under the name
+            ops.append(['amap', rng.choice(AM_NAMES), rng.choice(AM_ADDRS)])
+            continue
         if r < 0.30:
             l = w.circuit_event()
             if l:
@@ -432,6 +442,7 @@ class Spec:
         self.asked = {}
         self.targets = {}                      # (local address, port) -> (circuit object, Deferred) of connections made through a circuit
         self.ghosts = set()                    # Deferreds nobody holds (left in the registry by a connection that failed)
+        self.names = {}                        # a name or an address -> the mapping (a dict with the name) Tor's ADDRMAP lines gave it
         self.outs, self.cmds = [], []
 
     # helpers
@@ -544,7 +555,7 @@ class Spec:
         if st in ('NEW', 'NEWRESOLVE', 'SUCCEEDED'):
             if s['host'] is None:
                 h, p = args[3].rsplit(':', 1)
-                s['host'], s['port'] = h, int(p)
+                s['host'], s['port'] = (self.names[h]['name'] if h in self.names else h), int(p)
             self.notify(s, quit, 'new' if st == 'NEW' else 'succeeded')
         elif st == 'REMAP':
             s['addr'] = args[3].rsplit(':', 1)[0]
@@ -702,6 +713,22 @@ class Spec:
             so = self.asked.pop(op[1], None)
             if so is not None:
                 self.decide(so, op[2])
+        elif k == 'amap':
+            name, addr = op[1], op[2]
+            m = self.names.get(name)
+            if m is not None:
+                # the mapping moves: only the name (the word Tor used now) and the new address stand for it
+                for key in [key for key, v in self.names.items() if v is m and key != name]:
+                    del self.names[key]
+                m['name'] = name
+                if addr == '<error>':
+                    del self.names[name]
+                else:
+                    self.names[addr] = m
+            elif addr != '<error>':
+                m = {'name': name}
+                self.names[name] = m
+                self.names[addr] = m
         elif k in ('via', 'viap', 'viaw'):
             c = self.cobj[op[1]]
             d = self.new_d()
@@ -763,6 +790,8 @@ def spec_trace(case):
         sp.op(['circ', l, []])
     for l in case.get('snap_s') or []:
         sp.op(['strm', l, [], None])
+    for n, a in case.get('snap_a') or []:
+        sp.op(['amap', n, a])
     steps = [{'outs': sp.outs, 'view': sp.view()}]
     sp.outs = []
     for op in case['ops']:
